@@ -296,3 +296,43 @@ Theorem geometry_refinalize_pinned_refuted :
   /\ snd (g_step true Gref GFinalize (g_run true Gref [GLoad 0%nat] gst0)) = g_observe 0 (g_run true Gref [GLoad 0%nat] gst0).
 Proof. exact geometry_refinalize_pinned_refuted_lemma. Qed.
 Print Assumptions geometry_refinalize_pinned_refuted.
+
+(* ======================= widening round: conductivities changed in place, reader registries ======================= *)
+From OM Require Import Geom.ReaderRegistry.
+
+(* set_conductivity in place + finalize() = loading the same geometry with those conductivities: every derived quantity
+   (pairs, parts, invalid vertices, indices, barrier count, nested, hence HeadMat) is recomputed from the current inputs *)
+Theorem finalize_is_a_function_of_inputs : forall W i j s0,
+  d_finalized (nth i W dummy_desc) = true -> d_finalized (nth j W dummy_desc) = true ->
+  same_geometry (nth i W dummy_desc) (nth j W dummy_desc) = true ->
+  g_step true W (GSetCond j) (fst (g_step true W (GLoad i) s0))
+  = (fst (g_step true W (GLoad j) s0), g_observe 0 (fst (g_step true W (GLoad j) s0))).
+Proof. exact finalize_is_a_function_of_inputs_lemma. Qed.
+Print Assumptions finalize_is_a_function_of_inputs.
+
+Example finalize_function_hypotheses_satisfiable :
+  d_finalized (nth 1 Gref dummy_desc) = true /\ d_finalized (nth 2 Gref dummy_desc) = true /\ same_geometry (nth 1 Gref dummy_desc) (nth 2 Gref dummy_desc) = true.
+Proof. vm_compute. repeat split; reflexivity. Qed.
+
+(* a load after programmatic construction on the same object is the fresh load (instance of the general theorem) *)
+Theorem load_after_programmatic_construction_is_fresh : forall W h i t,
+  g_trace true W (GLoad i :: t) (g_run true W (h ++ [GPollute]) gst0) = g_trace true W (GLoad i :: t) gst0.
+Proof. intros. apply geometry_history_independent_lemma. Qed.
+Print Assumptions load_after_programmatic_construction_is_fresh.
+
+(* reader registries: one clone per load => no load, failed or not, changes the registry, and every load gets the status
+   the file gives to a fresh reader *)
+Theorem failed_geom_load_leaves_registry_unchanged : forall h r,
+  r_trace true h r = (map (fun p => status_of (snd p)) h, r).
+Proof. exact failed_load_leaves_registry_unchanged_lemma. Qed.
+Print Assumptions failed_geom_load_leaves_registry_unchanged.
+
+Theorem prototype_reuse_refuted :
+  fst (r_trace false [(0%nat, FFailAfterOpen 2137); (0%nat, FOk)] [false; false]) = [2137; 2130]
+  /\ fst (r_trace true [(0%nat, FFailAfterOpen 2137); (0%nat, FOk)] [false; false]) = [2137; 0].
+Proof. exact prototype_reuse_refuted_lemma. Qed.
+Print Assumptions prototype_reuse_refuted.
+
+Theorem readers_are_cloned_in_the_current_code : code_readers_are_cloned = true.
+Proof. reflexivity. Qed.
+Print Assumptions readers_are_cloned_in_the_current_code.
